@@ -37,6 +37,8 @@ type nodePool struct {
 	length   int   // length of nodePool
 
 	pool byte_pool.IBytePool // reference to []byte pool
+
+	isFixedKeylen bool // if true, every key must be exactly elemSize() bytes long
 }
 
 /*
@@ -62,6 +64,7 @@ func newNodePool(elemNum, elemSize int, isFixedKeylen bool) *nodePool {
 	np.freeNode = 0 //free node start from 0
 	np.capacity = elemNum
 	np.length = 0
+	np.isFixedKeylen = isFixedKeylen
 
 	if isFixedKeylen {
 		np.pool = byte_pool.NewFixedBytePool(elemNum, elemSize)
@@ -197,6 +200,10 @@ func (np *nodePool) elemSize() int {
 
 /* check whtether the key is legal for the set */
 func (np *nodePool) validateKey(key []byte) error {
+	if np.isFixedKeylen && len(key) != np.elemSize() {
+		// FixedBytePool.Set rejects such a key, and add() would link a node holding stale bytes
+		return fmt.Errorf("element len[%d] != fixed key len[%d]", len(key), np.elemSize())
+	}
 	if len(key) <= np.elemSize() {
 		return nil
 	}
